@@ -1446,3 +1446,232 @@ Proof.
   destruct b as [i cs]. cbn [spec_ctx]. cbv zeta. cbn [flow_all map binfo_of].
   eexists. eexists. reflexivity.
 Qed.
+
+(* ------------------------------------------------------------------ territories: every box belongs to exactly one context *)
+
+(* the boxes painted by the (pseudo) stacking context of b itself: its
+   sub-tree without the sub-trees hoisted to the enclosing real context *)
+Fixpoint own (b : box) : list box :=
+  match b with
+  | Box _ cs => b :: flat_map (fun c => match PaintSpec.cl impl_forms_ctx c with
+                                        | CReal | CPos => []
+                                        | _ => own c
+                                        end) cs
+  end.
+
+(* territory of a hoisted box: its whole sub-tree if it forms a context, its own part otherwise *)
+Definition terr (d : box) : list box := if impl_forms_ctx (binfo_of d) then boxes d else own d.
+
+Lemma perm_flat_map_app {A B} (f g : A -> list B) l :
+  Permutation (flat_map (fun a => f a ++ g a) l) (flat_map f l ++ flat_map g l).
+Proof.
+  induction l as [|a r IH]; simpl; [constructor|].
+  rewrite IH. rewrite <- !app_assoc. apply Permutation_app_head.
+  rewrite !app_assoc. apply Permutation_app_tail. apply Permutation_app_comm.
+Qed.
+
+Lemma perm_flat_map_ext {A B} (f g : A -> list B) l :
+  (forall a, In a l -> Permutation (f a) (g a)) -> Permutation (flat_map f l) (flat_map g l).
+Proof.
+  induction l as [|a r IH]; intros H; simpl; [constructor|].
+  apply Permutation_app; [apply H; left; reflexivity|apply IH; intros x Hx; apply H; right; exact Hx].
+Qed.
+
+Lemma flat_map_flat_map {A B C} (f : B -> list C) (g : A -> list B) l :
+  flat_map f (flat_map g l) = flat_map (fun a => flat_map f (g a)) l.
+Proof.
+  induction l as [|a r IH]; simpl; [reflexivity|]. rewrite flat_map_app, IH. reflexivity.
+Qed.
+
+Lemma cl_real_forms c : PaintSpec.cl impl_forms_ctx c = CReal -> impl_forms_ctx (binfo_of c) = true.
+Proof.
+  unfold PaintSpec.cl, PaintSpec.classify. destruct (impl_forms_ctx (binfo_of c)); [reflexivity|].
+  destruct (bpos _); [discriminate|]. destruct (bfloat _); [discriminate|].
+  destruct (css_atomic_inline_container _); discriminate.
+Qed.
+
+Lemma cl_notreal_forms c : PaintSpec.cl impl_forms_ctx c <> CReal -> impl_forms_ctx (binfo_of c) = false.
+Proof.
+  unfold PaintSpec.cl, PaintSpec.classify. destruct (impl_forms_ctx (binfo_of c)); [congruence|reflexivity].
+Qed.
+
+(* P1: the sub-tree of b = what b's context paints itself + the territories of the hoisted boxes *)
+Theorem boxes_partition b :
+  Permutation (boxes b) (own b ++ flat_map terr (hoisted impl_forms_ctx b)).
+Proof.
+  induction b as [i cs IH] using box_ind'.
+  unfold boxes. cbn [subs own hoisted]. simpl app. constructor.
+  change (fun c => c :: subs c) with boxes.
+  rewrite Forall_forall in IH.
+  transitivity (flat_map (fun c => (match PaintSpec.cl impl_forms_ctx c with CReal | CPos => [] | _ => own c end)
+                                   ++ flat_map terr (match PaintSpec.cl impl_forms_ctx c with
+                                                     | CReal => [c] | CPos => c :: hoisted impl_forms_ctx c
+                                                     | _ => hoisted impl_forms_ctx c end)) cs).
+  - apply perm_flat_map_ext. intros c Hc. specialize (IH c Hc).
+    destruct (PaintSpec.cl impl_forms_ctx c) eqn:Ecl.
+    + simpl. rewrite app_nil_r. unfold terr. rewrite (cl_real_forms c Ecl). reflexivity.
+    + simpl. unfold terr at 1. rewrite (cl_notreal_forms c) by congruence. exact IH.
+    + exact IH.
+    + exact IH.
+    + exact IH.
+  - rewrite perm_flat_map_app. apply Permutation_app_head.
+    rewrite flat_map_flat_map. reflexivity.
+Qed.
+
+(* ------------------------------------------------------------------ CSS's own stacking contexts *)
+(* the specification only consults forms_ctx on the boxes of the tree *)
+Section Ext.
+  Variables f g : binfo -> bool.
+  Variable level : binfo -> Z.
+  Variable zsort : list box -> list box.
+  Hypothesis zsort_in : forall l x, In x (zsort l) -> In x l.
+
+  Definition agree (b : box) : Prop := forall x, In x (boxes b) -> f (binfo_of x) = g (binfo_of x).
+
+  Lemma agree_child i cs c : agree (Box i cs) -> In c cs -> agree c.
+  Proof.
+    intros H Hc x Hx. apply H. right.
+    destruct Hx as [<-|Hx]; [apply subs_child; exact Hc|].
+    exact (subs_trans x c (Box i cs) Hx (subs_child i cs c Hc)).
+  Qed.
+
+  Lemma agree_sub b d : agree b -> In d (subs b) -> agree d.
+  Proof.
+    intros H Hd x Hx. apply H. right.
+    destruct Hx as [<-|Hx]; [exact Hd|]. exact (subs_trans x d b Hx Hd).
+  Qed.
+
+  Lemma cl_ext c : f (binfo_of c) = g (binfo_of c) -> PaintSpec.cl f c = PaintSpec.cl g c.
+  Proof. intros H. unfold PaintSpec.cl, PaintSpec.classify. rewrite H. reflexivity. Qed.
+
+  Lemma agree_self b : agree b -> f (binfo_of b) = g (binfo_of b).
+  Proof. intros H. apply H. left. reflexivity. Qed.
+
+  Lemma hoisted_ext b : agree b -> hoisted f b = hoisted g b.
+  Proof.
+    induction b as [i cs IH] using box_ind'. intros Ha. simpl. rewrite Forall_forall in IH.
+    apply flat_map_ext_in. intros c Hc. pose proof (agree_child i cs c Ha Hc) as Hac.
+    rewrite (cl_ext c (agree_self c Hac)). rewrite (IH c Hc Hac). reflexivity.
+  Qed.
+
+  Lemma flow_desc_ext sel b : agree b -> flow_desc f sel b = flow_desc g sel b.
+  Proof.
+    induction b as [i cs IH] using box_ind'. intros Ha. simpl. rewrite Forall_forall in IH.
+    apply flat_map_ext_in. intros c Hc. pose proof (agree_child i cs c Ha Hc) as Hac.
+    rewrite (cl_ext c (agree_self c Hac)). rewrite (IH c Hc Hac). reflexivity.
+  Qed.
+
+  Lemma flow_floats_ext b : agree b -> flow_floats f b = flow_floats g b.
+  Proof.
+    induction b as [i cs IH] using box_ind'. intros Ha. simpl. rewrite Forall_forall in IH.
+    apply flat_map_ext_in. intros c Hc. pose proof (agree_child i cs c Ha Hc) as Hac.
+    rewrite (cl_ext c (agree_self c Hac)). rewrite (IH c Hc Hac). reflexivity.
+  Qed.
+
+  Lemma flow_all_ext b : agree b -> flow_all f b = flow_all g b.
+  Proof.
+    induction b as [i cs IH] using box_ind'. intros Ha. simpl. rewrite Forall_forall in IH. f_equal.
+    apply flat_map_ext_in. intros c Hc. pose proof (agree_child i cs c Ha Hc) as Hac.
+    rewrite (cl_ext c (agree_self c Hac)). rewrite (IH c Hc Hac). reflexivity.
+  Qed.
+
+  Lemma inline_paint_ext a1 a2 c :
+    agree c -> (forall d, In d (boxes c) -> a1 d = a2 d) ->
+    inline_paint f a1 c = inline_paint g a2 c.
+  Proof.
+    induction c as [i cs IH] using box_ind'. intros Ha Hat. cbn [inline_paint].
+    pose proof (agree_self _ Ha) as Hs. cbn [binfo_of] in Hs.
+    unfold PaintSpec.classify. rewrite Hs.
+    destruct (g i); [reflexivity|]. destruct (bpos i); [reflexivity|]. destruct (bfloat i); [reflexivity|].
+    destruct (css_atomic_inline_container (bkind i)); [apply Hat; left; reflexivity|].
+    destruct (css_text (bkind i)); [reflexivity|]. destruct (css_replaced (bkind i)); [reflexivity|].
+    f_equal. f_equal. rewrite Forall_forall in IH. apply flat_map_ext_in. intros c Hc.
+    apply IH; [exact Hc|exact (agree_child i cs c Ha Hc)|].
+    intros d Hd. apply Hat. right. destruct Hd as [<-|Hd]; [apply subs_child; exact Hc|].
+    exact (subs_trans d c (Box i cs) Hd (subs_child i cs c Hc)).
+  Qed.
+
+  Lemma block_content_ext a1 a2 x :
+    agree x -> (forall d, In d (subs x) -> a1 d = a2 d) ->
+    block_content f a1 x = block_content g a2 x.
+  Proof.
+    destruct x as [i cs]. intros Ha Hat. unfold block_content.
+    destruct (css_replaced (bkind i)); [reflexivity|].
+    apply flat_map_ext_in. intros c Hc. pose proof (agree_child i cs c Ha Hc) as Hac.
+    rewrite (cl_ext c (agree_self c Hac)).
+    destruct (PaintSpec.cl g c); try reflexivity. destruct (css_line_box _); [|reflexivity].
+    apply inline_paint_ext; [exact Hac|].
+    intros d Hd. apply Hat. destruct Hd as [<-|Hd]; [apply subs_child; exact Hc|].
+    exact (subs_trans d c (Box i cs) Hd (subs_child i cs c Hc)).
+  Qed.
+
+  Theorem spec_ctx_ext n : forall real b, agree b -> spec_ctx f level zsort n real b = spec_ctx g level zsort n real b.
+  Proof.
+    induction n as [|n IH]; intros real b Ha; [reflexivity|].
+    cbn [spec_ctx]. cbv zeta.
+    rewrite (hoisted_ext b Ha), (flow_floats_ext b Ha), !(flow_desc_ext _ b Ha), (flow_all_ext b Ha).
+    set (H := if real then hoisted g b else []).
+    assert (HH : forall d, In d H -> In d (subs b)).
+    { intros d Hd. unfold H in Hd. destruct real; [apply (hoisted_subs_gen g); exact Hd|destruct Hd]. }
+    assert (Hf : forall d, In d (subs b) -> f (binfo_of d) = g (binfo_of d)).
+    { intros d Hd. apply Ha. right. exact Hd. }
+    assert (Hsub : forall d, In d (subs b) -> forall r, spec_ctx f level zsort n r d = spec_ctx g level zsort n r d).
+    { intros d Hd r. apply IH. exact (agree_sub b d Ha Hd). }
+    assert (E1 : forall p q : box -> bool, (forall d, In d H -> p d = q d) -> filter p H = filter q H).
+    { intros p q Hpq. apply filter_ext_in'. exact Hpq. }
+    rewrite (E1 (fun d => f (binfo_of d) && (PaintSpec.blevel level d <? 0)%Z) (fun d => g (binfo_of d) && (PaintSpec.blevel level d <? 0)%Z))
+      by (intros d Hd; rewrite (Hf d (HH d Hd)); reflexivity).
+    rewrite (E1 (fun d => negb (f (binfo_of d)) || (PaintSpec.blevel level d =? 0)%Z) (fun d => negb (g (binfo_of d)) || (PaintSpec.blevel level d =? 0)%Z))
+      by (intros d Hd; rewrite (Hf d (HH d Hd)); reflexivity).
+    rewrite (E1 (fun d => f (binfo_of d) && (0 <? PaintSpec.blevel level d)%Z) (fun d => g (binfo_of d) && (0 <? PaintSpec.blevel level d)%Z))
+      by (intros d Hd; rewrite (Hf d (HH d Hd)); reflexivity).
+    assert (Esub : forall l, (forall d, In d l -> In d (subs b)) ->
+              flat_map (fun d => spec_ctx f level zsort n (f (binfo_of d)) d) l =
+              flat_map (fun d => spec_ctx g level zsort n (g (binfo_of d)) d) l).
+    { intros l Hl. apply flat_map_ext_in. intros d Hd. rewrite (Hf d (Hl d Hd)). apply Hsub. auto. }
+    rewrite !Esub.
+    2:{ intros d Hd. apply HH. apply zsort_in in Hd. apply filter_In in Hd. tauto. }
+    2:{ intros d Hd. apply HH. apply filter_In in Hd. tauto. }
+    2:{ intros d Hd. apply HH. apply zsort_in in Hd. apply filter_In in Hd. tauto. }
+    assert (Efl : flat_map (fun d => spec_ctx f level zsort n false d) (flow_floats g b) =
+                  flat_map (fun d => spec_ctx g level zsort n false d) (flow_floats g b)).
+    { apply flat_map_ext_in. intros d Hd. apply Hsub. apply (flow_floats_subs_gen g). exact Hd. }
+    rewrite Efl.
+    assert (Eir : inline_root_paint f (fun d => spec_ctx f level zsort n false d) b =
+                  inline_root_paint g (fun d => spec_ctx g level zsort n false d) b).
+    { destruct b as [i cs]. unfold inline_root_paint. f_equal. f_equal.
+      apply flat_map_ext_in. intros c Hc. apply inline_paint_ext; [exact (agree_child i cs c Ha Hc)|].
+      intros d Hd. apply Hsub. destruct Hd as [<-|Hd]; [apply subs_child; exact Hc|].
+      exact (subs_trans d c (Box i cs) Hd (subs_child i cs c Hc)). }
+    rewrite Eir.
+    assert (Ebc : flat_map (block_content f (fun d => spec_ctx f level zsort n false d))
+                    (b :: flow_desc g (fun k => css_block_level k || css_cell k) b) =
+                  flat_map (block_content g (fun d => spec_ctx g level zsort n false d))
+                    (b :: flow_desc g (fun k => css_block_level k || css_cell k) b)).
+    { apply flat_map_ext_in. intros x Hx. destruct Hx as [<-|Hx].
+      - apply block_content_ext; [exact Ha|]. intros d Hd. apply Hsub. exact Hd.
+      - pose proof (flow_desc_subs_gen g _ b x Hx) as Hxs.
+        apply block_content_ext; [exact (agree_sub b x Ha Hxs)|].
+        intros d Hd. apply Hsub. exact (subs_trans d x b Hd Hxs). }
+    rewrite Ebc. reflexivity.
+  Qed.
+End Ext.
+
+(* without any overflow != visible box the implementation's stacking contexts are CSS's *)
+Theorem spec_paint_css zsort :
+  z_then_tree_order css_level zsort ->
+  forall b, (forall x, In x (boxes b) -> bclip (binfo_of x) = false) ->
+  spec_paint impl_forms_ctx css_level zsort b = spec_paint css_forms_ctx css_level zsort b.
+Proof.
+  intros Hz b Hc. unfold spec_paint. apply spec_ctx_ext.
+  - intros l x. apply (zsort_in zsort Hz).
+  - intros x Hx. unfold impl_forms_ctx. rewrite (Hc x Hx). apply orb_false_r.
+Qed.
+
+Corollary paint_order_css zsort :
+  z_then_tree_order css_level zsort ->
+  forall b, wf_shape b = true -> (forall x, In x (boxes b) -> bclip (binfo_of x) = false) ->
+  paint (from_box b) = Ok (spec_paint css_forms_ctx css_level zsort b).
+Proof.
+  intros Hz b Hwf Hc. rewrite (paint_order_spec zsort Hz b Hwf). f_equal. apply spec_paint_css; assumption.
+Qed.
